@@ -87,7 +87,7 @@ UNIT = dict(
              sig_source_norm="fn read(&self, in_block_offset: u64) -> std::io::Result<(Entry, usize)>",
              rules=RULES,
              requires=[("", "sys.files@.contains_key(self.mmap.file)"),
-                       ("C11:read_header_inside_the_file", "self.offset + in_block_offset + PREFIX_META_SIZE <= sys.files@[self.mmap.file].len()"),
+                       ("", "self.offset + in_block_offset <= 0x7fff_ffff_ffff_ffff"),
                        ("", "sys.files@[self.mmap.file].len() <= 0x7fff_ffff_ffff")],
              ensures=[
                  ("C11:whatever_the_bytes_a_returned_payload_lies_inside_the_file_and_matches_its_checksum",
